@@ -460,7 +460,14 @@ def run_threads(spec, acc):
       for t in ts:
         t.join()
       anchor.b = 'after-join'
-      id_after = anchor.__argument_history__['b'][-1].sequence_id
+      entries_b = anchor.__argument_history__.get('b') or []
+      if not entries_b:
+        acc.violation('thread:tracked-edit-not-logged', 'an edit of the main thread after the worker '
+                      'threads were joined added no history entry (tracking left switched off by a '
+                      'worker?)', {'threads': nthreads})
+        history.set_tracking(True)
+        continue
+      id_after = entries_b[-1].sequence_id
       acc.obs('thread_runs')
       tids = [i_ for r_ in results if r_ is not None for ids_ in r_[0].values() for i_ in ids_]
       if tids and not (id_before < min(tids) and max(tids) < id_after):
